@@ -20,7 +20,11 @@ func H_C08_req() {
 	off := vArbOffset("off")
 	R := nondetU64("R")
 	assume(R <= off.SeqNo)
-	n := 1 + choose("loglen", 4)
+	maxLog := 4
+	if tierThorough() {
+		maxLog = 7
+	}
+	n := 1 + choose("loglen", maxLog)
 	log := make([]gocbcore.FailoverEntry, n)
 	for i := 0; i < n; i++ {
 		log[i] = gocbcore.FailoverEntry{VbUUID: gocbcore.VbUUID(nondetU64("log.uuid")), SeqNo: gocbcore.SeqNo(nondetU64("log.seq"))}
